@@ -49,7 +49,18 @@ pub enum Case {
     /// first request head arrives in pieces; the last piece at `done`
     Head { timeout_ms: u32, accept_delay: u16, disc_ms: u32, pieces: u8, first_at: u16, done: When, sels: Vec<u16> },
     /// one request answered after `h_ms`; a second request arrives at `second`
-    KeepAlive { ka: KaCfg, accept_delay: u16, h_ms: u16, second: When, third: When },
+    KeepAlive {
+        ka: KaCfg,
+        accept_delay: u16,
+        h_ms: u16,
+        second: When,
+        third: When,
+        /// the first request is a chunked upload: (handler drops the payload unread, ms at which
+        /// the terminating chunk arrives). The idle period starts when the response is written
+        /// and the body has been read or drained to its end.
+        #[serde(default)]
+        upload: Option<(bool, u16)>,
+    },
     /// the server decides to end the connection (trigger); the peer is silent / half-closes late /
     /// never reads / its transport never completes shutdown
     Shutdown { trigger: Trigger, disc_ms: u32, accept_delay: u16, peer: PeerEnd, never_reads: bool, shutdown_blocks: bool },
@@ -111,8 +122,15 @@ fn case_strategy(kind: u8) -> BoxedStrategy<Case> {
                 sels,
             })
             .boxed(),
-        1 => (ka_cfg(), prop_oneof![1 => Just(0u16), 3 => 0u16..1100], prop_oneof![2 => Just(0u16), 2 => 1u16..700], when(), when())
-            .prop_map(|(ka, accept_delay, h_ms, second, third)| Case::KeepAlive { ka, accept_delay, h_ms, second, third })
+        1 => (
+            ka_cfg(),
+            prop_oneof![1 => Just(0u16), 3 => 0u16..1100],
+            prop_oneof![2 => Just(0u16), 2 => 1u16..700],
+            when(),
+            when(),
+            prop_oneof![3 => Just(None), 2 => (any::<bool>(), prop_oneof![1 => Just(0u16), 3 => 1u16..900]).prop_map(Some)],
+        )
+            .prop_map(|(ka, accept_delay, h_ms, second, third, upload)| Case::KeepAlive { ka, accept_delay, h_ms, second, third, upload })
             .boxed(),
         2 => (
             prop_oneof![Just(Trigger::KaExpiry), Just(Trigger::Head408), Just(Trigger::CloseResponse), Just(Trigger::UnreadBody)],
@@ -312,9 +330,21 @@ pub fn run_case(_cfg: &RunCfg, case: &Case) -> Verdict {
             v
         }
 
-        Case::KeepAlive { ka, accept_delay, h_ms, second, third } => {
+        Case::KeepAlive { ka, accept_delay, h_ms, second, third, upload } => {
             let one = b"GET /ka HTTP/1.1\r\nHost: x\r\n\r\n";
-            let mut input = one.to_vec();
+            // a closing response to an undrained upload is C03's subject (listed findings there)
+            let upload = if matches!(ka, KaCfg::Disabled) { None } else { *upload };
+            let mut first = one.to_vec();
+            let mut first_head_len = first.len();
+            if upload.is_some() {
+                first = b"POST /ka HTTP/1.1\r\nHost: x\r\nTransfer-Encoding: chunked\r\n\r\n64\r\n".to_vec();
+                first.extend(std::iter::repeat(b'u').take(100));
+                first.extend_from_slice(b"\r\n");
+                first_head_len = first.len();
+                first.extend_from_slice(b"0\r\n\r\n");
+            }
+            let f = first.len();
+            let mut input = first;
             input.extend_from_slice(one);
             input.extend_from_slice(one);
             let l = one.len();
@@ -323,8 +353,9 @@ pub fn run_case(_cfg: &RunCfg, case: &Case) -> Verdict {
                 _ => None,
             };
             // response i is written when its handler returns (benign socket); the keep-alive timer
-            // is armed then
-            let t_r1 = *h_ms as i64;
+            // is armed then - for an upload, once the body has also been read / drained to its end
+            let tail_ms = upload.map(|(_, t)| t as i64).unwrap_or(0);
+            let t_r1 = (*h_ms as i64).max(tail_ms);
             let d1 = ka_ms.map(|k| exact_deadline(*accept_delay, t_r1, k));
             let at = |w: &When, base: Option<i64>, idle_from: i64| -> Option<i64> {
                 match (w, base) {
@@ -334,33 +365,46 @@ pub fn run_case(_cfg: &RunCfg, case: &Case) -> Verdict {
                 }
             };
             let t2 = at(second, d1, t_r1 + 1);
-            let mut ops = vec![PeerOp::Send(0, l)];
+            let mut ops = vec![PeerOp::Send(0, first_head_len)];
             let mut now = 0i64;
+            if upload.is_some() {
+                if tail_ms > 0 {
+                    ops.push(PeerOp::Sleep(tail_ms as u32));
+                    now = tail_ms;
+                }
+                ops.push(PeerOp::Send(first_head_len, f));
+            }
             let mut t_r2 = None;
             let mut t3 = None;
             if let Some(t2) = t2 {
                 ops.push(PeerOp::Sleep((t2 - now) as u32));
                 now = t2;
-                ops.push(PeerOp::Send(l, 2 * l));
+                ops.push(PeerOp::Send(f, f + l));
                 // second handler answers at once
                 t_r2 = Some(t2);
                 let d2 = ka_ms.map(|k| exact_deadline(*accept_delay, t2, k));
                 t3 = at(third, d2, t2 + 1);
                 if let Some(t3) = t3 {
                     ops.push(PeerOp::Sleep((t3 - now) as u32));
-                    ops.push(PeerOp::Send(2 * l, 3 * l));
+                    ops.push(PeerOp::Send(f + l, f + 2 * l));
                 }
             }
             ops.push(PeerOp::WaitClose(30_000));
             ops.push(PeerOp::Eof);
             let cfg = SrvCfg { ka: ka.clone(), accept_delay_ms: *accept_delay, ..Default::default() };
-            let progs = vec![prog(*h_ms, ok_resp(3)), prog(0, ok_resp(4)), prog(0, ok_resp(5))];
+            let mut p0 = prog(*h_ms, ok_resp(3));
+            if matches!(upload, Some((true, _))) {
+                p0.read = ReadProg::DropNow;
+            }
+            let progs = vec![p0, prog(0, ok_resp(4)), prog(0, ok_resp(5))];
             let out = h1engine::run(Scenario::new(cfg, progs, input, ops));
             let v = Verdict::ok()
                 .nt(ka_ms.is_some() && (matches!(second, When::Rel(d) if d.abs() <= 50) || matches!(third, When::Rel(d) if d.abs() <= 50)))
                 .class_if(matches!(ka, KaCfg::Disabled), "ka-disabled")
                 .class_if(matches!(ka, KaCfg::Os), "ka-os")
                 .class_if(ka_ms.is_some(), "ka-timeout")
+                .class_if(matches!(upload, Some((true, t)) if t as i64 > *h_ms as i64), "upload-dropped-tail-after-response")
+                .class_if(matches!(upload, Some((false, _))), "upload-read")
                 .class_if(matches!(second, When::Never), "no-second-request")
                 .class_if(matches!(second, When::Rel(d) if (-3..=3).contains(d)), "second-within-3ms-of-deadline");
             let v = match common(v, &out) {
@@ -704,7 +748,7 @@ pub fn run_case(_cfg: &RunCfg, case: &Case) -> Verdict {
 
 pub fn run(cfg: &RunCfg) -> Report {
     let mut rep = Report::new("C06");
-    rep.rule = "cases = (head) client_request_timeout 0/300/3000/1..2000 ms x clock staleness 0..499 ms x first head in 1-4 pieces completing at the exact deadline -3000..+1500 ms (dense at +-3 ms) or never; (keep-alive) Disabled/Os/Timeout 1..5000 ms x handler delay x second and third request arriving at the exact idle deadline -3000..+1500 ms or never; (shutdown) decision by keep-alive expiry / 408 / Connection: close response / response with unread body (linger) x client_disconnect_timeout 0/500/2000/1..3000 ms x peer silent or half-closing late x peer that never reads x transport whose shutdown never completes; (drain) graceful-shutdown signal at 0..900 ms against 1-4 requests with handler delays, streaming bodies and arrival gaps; \
+    rep.rule = "cases = (head) client_request_timeout 0/300/3000/1..2000 ms x clock staleness 0..499 ms x first head in 1-4 pieces completing at the exact deadline -3000..+1500 ms (dense at +-3 ms) or never; (keep-alive) Disabled/Os/Timeout 1..5000 ms x handler delay x second and third request arriving at the exact idle deadline -3000..+1500 ms or never, the first request optionally a chunked upload (read or dropped by the handler) whose terminating chunk arrives 0-900 ms after its head; (shutdown) decision by keep-alive expiry / 408 / Connection: close response / response with unread body (linger) x client_disconnect_timeout 0/500/2000/1..3000 ms x peer silent or half-closing late x peer that never reads x transport whose shutdown never completes; (drain) graceful-shutdown signal at 0..900 ms against 1-4 requests with handler delays, streaming bodies and arrival gaps; \
                 non-trivial = an event within 50 ms of a deadline or a head that never completes, an obstructed shutdown with a timeout configured, or a signal fired while a handler runs with a request queued; distinct by hash of the case"
         .into();
     rep.assumptions = vec![
